@@ -50,10 +50,10 @@ def make_grid(axnames=("AX",), positions=POSITIONS, default_shifts=None, face_co
     )
 
 
-def make_da(name: str, dims, **attrs):
+def make_da(objname: str, dims, **attrs):
     a = {"dims": tuple(dims), "__isinstance__": ("DataArray",)}
     a.update(attrs)
-    return Obj("DataArray", name, (), a)
+    return Obj("DataArray", objname, (), a)
 
 
 # ------------------------------------------------------------------ common models of package functions
